@@ -14,6 +14,8 @@ import (
 	"fmt"
 	"io"
 	"log/slog"
+	"os"
+	"runtime/pprof"
 	"time"
 
 	"github.com/AdguardTeam/AdGuardHome/internal/verifx/lib"
@@ -28,6 +30,11 @@ func silence() {
 
 func run(c *lib.Ctx) {
 	silence()
+	if pf := os.Getenv("C15_PROF"); pf != "" && c.ShardI == 0 {
+		f, _ := os.Create(pf)
+		_ = pprof.StartCPUProfile(f)
+		defer pprof.StopCPUProfile()
+	}
 	runSequences(c)
 	if c.Expired() {
 		return
